@@ -709,3 +709,100 @@ pub fn stale(seed: u64, bases: &str, count: u64, max_ops: u64, outdir: &str, lis
     println!("STAT stale_calls {}", calls);
     println!("STAT stale_handle_calls {}", stale_calls);
 }
+
+// ---------------------------------------------------------------------------------------------
+// C17 on files whose free directory slots are not blank.  MS-CFB wants unallocated entries all zero, but
+// both open modes accept other bytes there (only the type and the links are read).  Whatever a free
+// slot holds, an object created into it starts as a new object: nil CLSID, zero state bits, streams with
+// zero times — immediately and after reopening.
+
+pub fn dirty_slots(seed: u64, bases: &str, count: u64) {
+    let mut rng = Rng::new(seed);
+    let files: Vec<String> = std::fs::read_to_string(bases).unwrap().lines().filter(|l| !l.is_empty()).map(|s| s.to_string()).collect();
+    let images: Vec<Vec<u8>> = files.iter().filter_map(|f| std::fs::read(f).ok()).filter(|b| b.len() >= 1536 && b.len() < 400_000).collect();
+    let (mut cases, mut dirty_total, mut created) = (0u64, 0u64, 0u64);
+    let mut reported = 0;
+    for k in 0..count {
+        let mut b = rng.pick(&images).clone();
+        let l = layout(&b);
+        let s = l.s;
+        let per = s / 128;
+        let mut dirty = 0;
+        for i in 1..l.dir_sectors.len() * per {
+            let o = (l.dir_sectors[i / per] + 1) * s + (i % per) * 128;
+            if o + 128 <= b.len() && b[o + 66] == 0 {
+                for x in b[o + 80..o + 116].iter_mut() {
+                    *x = (rng.next() as u8) | 1;
+                }
+                dirty += 1;
+            }
+        }
+        if dirty == 0 {
+            continue;
+        }
+        for strict in [false, true] {
+            let img = b.clone();
+            let r = catch(move || -> Option<Vec<String>> {
+                let shared = SharedFile::new(img);
+                let mut comp = if strict { CompoundFile::open_strict(Backend::Mem(shared.clone())).ok()? } else { CompoundFile::open(Backend::Mem(shared.clone())).ok()? };
+                let mut bad = Vec::new();
+                let zero = cfb::verif::system_time_from_timestamp(0);
+                let mut judge = |comp: &CompoundFile<Backend>, path: &str, is_stream: bool, when: &str, bad: &mut Vec<String>| {
+                    match comp.entry(path) {
+                        Ok(e) => {
+                            if !e.clsid().is_nil() { bad.push(format!("{} {}: CLSID {} instead of nil", when, path, e.clsid())); }
+                            if e.state_bits() != 0 { bad.push(format!("{} {}: state bits {} instead of 0", when, path, e.state_bits())); }
+                            if is_stream && (e.created() != zero || e.modified() != zero) { bad.push(format!("{} {}: a stream with timestamps", when, path)); }
+                        }
+                        Err(e) => bad.push(format!("{} {}: entry() fails: {}", when, path, e)),
+                    }
+                };
+                for i in 0..3 {
+                    let (ps, pd) = (format!("/zz_new_stream{}", i), format!("/zz_new_storage{}", i));
+                    if comp.create_stream(&ps).is_ok() { judge(&comp, &ps, true, "right after creation", &mut bad); }
+                    if comp.create_storage(&pd).is_ok() { judge(&comp, &pd, false, "right after creation", &mut bad); }
+                }
+                let _ = comp.flush();
+                let bytes = shared.snapshot();
+                match CompoundFile::open_strict(std::io::Cursor::new(bytes)) {
+                    Ok(c2) => {
+                        for i in 0..3 {
+                            for (p, is_stream) in [(format!("/zz_new_stream{}", i), true), (format!("/zz_new_storage{}", i), false)] {
+                                if c2.exists(&p) {
+                                    match c2.entry(&p) {
+                                        Ok(e) => {
+                                            if !e.clsid().is_nil() || e.state_bits() != 0 || (is_stream && (e.created() != zero || e.modified() != zero)) {
+                                                bad.push(format!("after reopening {}: CLSID {} state bits {}", p, e.clsid(), e.state_bits()));
+                                            }
+                                        }
+                                        Err(e) => bad.push(format!("after reopening {}: entry() fails: {}", p, e)),
+                                    }
+                                }
+                            }
+                        }
+                    }
+                    Err(e) => bad.push(format!("after creating objects in the free slots the bytes no longer open strictly: {}", e)),
+                }
+                Some(bad)
+            });
+            match r {
+                Ok(Some(bad)) => {
+                    cases += 1;
+                    created += 6;
+                    if let Some(m) = bad.first() {
+                        if reported < 3 {
+                            reported += 1;
+                            println!("ORACLE dirty-free-slots case {} (seed {}, {} open, {} free slots filled with non-zero CLSID/state/time bytes): {}", k, seed, if strict { "strict" } else { "permissive" }, dirty, m);
+                        }
+                    }
+                }
+                Ok(None) => {}
+                Err(m) => println!("ORACLE dirty-free-slots case {} (seed {}): panic: {}", k, seed, m.chars().take(160).collect::<String>()),
+            }
+        }
+        dirty_total += dirty as u64;
+    }
+    println!("STAT dirty_cases {}", cases);
+    println!("STAT dirty_slots {}", dirty_total);
+    println!("STAT dirty_created {}", created);
+}
